@@ -105,7 +105,7 @@ def main():
         if fails:
             res["suite_failures"] = fails[:6]
         # the patch as it applies to the current tree
-        rc, cur = sh(["git", "diff"], cwd=wt)
+        rc, cur = sh(["git", "diff", "HEAD"], cwd=wt)
         res["confirmed"] = bool(res.get("builds") and res["demo_passes_without_patch"] and res["demo_fails_with_patch"] and res["suite_passes_with_patch"])
     finally:
         sh(["git", "-C", "/repo", "worktree", "remove", "--force", wt])
